@@ -16,6 +16,7 @@ ASSUMPTIONS = [
     "assumed libc contracts in executable form: qsort = sorted permutation of exactly the range passed, bsearch = found <=> present",
     "A-libm: sqrt/cos/pow are unknown pure functions (the recomputed volume is compared by congruence)",
     "Crystal_ReadFile (fopen/fgets/sscanf) is not covered: no CBMC model of stdio",
+    "additions into a NON-EMPTY array (duplicate rejection, sorted insertion next to existing entries) are attempted in the thorough tier only: no back end finishes; the quick tier decides additions into empty arrays of every capacity (incl. growth), lookups, lists, copies and frees for every shape",
 ]
 
 
@@ -32,9 +33,18 @@ def groups(sc, tier):
             kw2 = dict(kw)
             kw2["harness_defines"] = kw["harness_defines"] + ["-DSHAPE_NA=%d" % na, "-DSHAPE_NC=%d" % nc]
             kw2["bounded"] = "capacity %d, %d stored crystals (1-character names, 1 / 2 atoms)" % (na, nc)
+            if nc > 0:
+                kw2["harness_defines"] = kw2["harness_defines"] + ["-DSTATIC_STORE"] + ([] if tier == "thorough" else ["-DCONCRETE_NAMES"])
+                kw2["leak_check"] = False
+                kw2["bounded"] += "; stored names symbolic" if tier == "thorough" else "; stored names are the constants b, d (added name symbolic)"
             gs.append(Group("C14.K5.AddCrystal.cap%d_fill%d" % (na, nc), "K5", "lemma_AddCrystal",
                             functions=["Crystal_AddCrystal", "Crystal_ExtendArray", "Crystal_MakeCopy", "Crystal_ArrayFree", "Crystal_UnitCellVolume"],
-                            expect_canaries=(["added"] + (["growth"] if nc == na else []) + (["duplicate"] if nc > 0 else [])), **kw2))
+                            expect_canaries=(["added"] + (["growth"] if nc == na else []) + (["duplicate"] if nc > 0 else [])),
+                            attempt_only=(nc > 0),   # additions into a non-empty array: no back end finishes within 30 min; thorough tier, attempted
+                            **kw2))
+            kw2 = dict(kw)
+            kw2["harness_defines"] = kw["harness_defines"] + ["-DSHAPE_NA=%d" % na, "-DSHAPE_NC=%d" % nc]
+            kw2["bounded"] = "capacity %d, %d stored crystals (1-character names, 1 / 2 atoms)" % (na, nc)
             gs.append(Group("C14.K5.Get_List_Copy.cap%d_fill%d" % (na, nc), "K5", "lemma_Get_List_Copy",
                             functions=["Crystal_GetCrystal", "Crystal_MakeCopy", "Crystal_GetCrystalsList", "Crystal_Free", "Crystal_ArrayFree"],
                             expect_canaries=(["list end"] + (["found"] if nc > 0 else [])), **kw2))
